@@ -621,6 +621,7 @@ theorem pushScalar_appends (ext : Ext) : ∀ (b : B) (x : SVal) (b' : B), WFB b 
       · rename_i i hi
         obtain ⟨idx', h1, h2⟩ := (bind_ok _ _ _).1 h
         cases h2
+        rw [ctx_eq_ok] at h1
         obtain ⟨hidx, lv, hdec, hint⟩ := pushScalar_appends ext idx _ idx' hw'.1 hsafe.2.1 h1
         have hlt : i < index.length := by
           have := SaModel.Props.C11Front.indexOfName_some index s i hi
@@ -641,6 +642,7 @@ theorem pushScalar_appends (ext : Ext) : ∀ (b : B) (x : SVal) (b' : B), WFB b 
         obtain ⟨vals', h1, h2⟩ := (bind_ok _ _ _).1 h
         obtain ⟨idx', h3, h4⟩ := (bind_ok _ _ _).1 h2
         cases h4
+        rw [ctx_eq_ok] at h1 h3
         obtain ⟨hvals, lw, hdecv, _⟩ := pushScalar_appends ext vals _ vals' hw'.2.1 hsafe.2.2 h1
         obtain ⟨hidx, lv, hdec, hint⟩ := pushScalar_appends ext idx _ idx' hw'.1 hsafe.2.1 h3
         have hnotin : s ∉ index := by
